@@ -665,18 +665,46 @@ func (c *Ctx) sameRecordAsCompared(p *core.Path, mp ssa.Value, heldEq []*ssa.Bin
 	sameElem := func(a, b *ssa.IndexAddr) bool {
 		return p.Term(a.X) == p.Term(b.X) && (deepStrip(p.Resolve(a.Index)) == deepStrip(p.Resolve(b.Index)) || p.Term(a.Index) == p.Term(b.Index))
 	}
-	n := 0
+	// boundedBy: on this path the index of the record used was compared (<, <=, >, >=) with a value derived from the
+	// index of the other record: the record used lies in the run of entries that the other comparison delimited
+	// (first, end := candidates(user); for idx := first; idx < end; idx++ { … db[idx] … })
+	boundedBy := func(used, other *ssa.IndexAddr) bool {
+		if p.Term(used.X) != p.Term(other.X) {
+			return false
+		}
+		ui, oi := core.Strip(used.Index), core.Strip(other.Index) // the loop variables themselves, not their per-iteration values
+		for _, d := range decisions(p) {
+			bo, ok := d.Cond.(*ssa.BinOp)
+			if !ok || (bo.Op != token.LSS && bo.Op != token.LEQ && bo.Op != token.GTR && bo.Op != token.GEQ) {
+				continue
+			}
+			for _, pair := range [][2]ssa.Value{{bo.X, bo.Y}, {bo.Y, bo.X}} {
+				a, b := core.Strip(pair[0]), pair[1]
+				if a == ui && depReaches(b, func(v ssa.Value) bool { return v == oi }) {
+					return true
+				}
+			}
+		}
+		return false
+	}
+	n, exact := 0, 0
 	for _, bo := range heldEq {
 		for _, side := range []ssa.Value{bo.X, bo.Y} {
 			for _, e := range recordElems(p, side) {
-				if !sameElem(e, mine[0]) {
+				switch {
+				case sameElem(e, mine[0]):
+					exact++
+				case boundedBy(mine[0], e):
+				default:
 					return false
 				}
 				n++
 			}
 		}
 	}
-	return n >= 2
+	// at least the comparison that decides acceptance last (the password's) is made on the very record whose mount point
+	// is returned; every other comparison on a record of the table is on that record too, or delimits the run it lies in
+	return n >= 1 && exact >= 1
 }
 
 // mixesRawCredentials: v depends on a string/byte concatenation whose operands reach, without passing through any call, both the presented username and the presented password.
@@ -1054,6 +1082,21 @@ func (c *Ctx) ruleMountPointNeverEmpty(id string, authPkg string) {
 				}
 			}
 			return true
+		}
+		// the result of a module function (mountPointOf(fields)): every value it returns, judged where it returns it
+		if cv, ok := v.(*ssa.Call); ok {
+			if g := cv.Call.StaticCallee(); g != nil && g.Pkg != nil && c.P.IsModPkg(g.Pkg.Pkg) && len(g.Blocks) > 0 && g.Signature.Results().Len() == 1 {
+				nRet := 0
+				for _, rb := range g.Blocks {
+					if r, ok := rb.Instrs[len(rb.Instrs)-1].(*ssa.Return); ok && len(r.Results) == 1 {
+						nRet++
+						if !nonEmpty(r.Results[0], rb, nil, depth+1) {
+							return false
+						}
+					}
+				}
+				return nRet > 0
+			}
 		}
 		vt := core.Term(v)
 		var conds []condPol
